@@ -64,6 +64,7 @@ class CompScenario(Scenario):
     def __init__(self, cfg):
         super().__init__(cfg)
         self.top = Top()
+        self.top._MustUse__silence = True  # scenarios of plain modules do not elaborate the container
         self.widths: dict = {}
         self.signed: set = set()
         self.callers: dict = {}
